@@ -5,7 +5,8 @@
 
       --long-name=value      --long-name      positional
 
-  (long names and their visible aliases; one token per option occurrence).  Everything else — short options,
+  (long names and their visible aliases; one token per option occurrence, except for a bare optional-valued option
+  followed by a value: `lexAll`).  Everything else — short options,
   `--name value` in two tokens, `--`, `--additional-help`, `--help`, `--version` — is outside this model
   (`Tok.other`, the parse answers `none`, and the correspondence run does not generate it).
 
@@ -206,8 +207,21 @@ def assemble (r : Raw) : Parsed :=
     files := r.files
     cacheSize := ((r.single .cache).bind parseUnsigned).getD 0 }
 
+/-- The tokens of a whole command line.  One token per argument, except that clap hands a BARE optional-valued option
+(`--group-by`, `--combine`, `--merge` without `=value`) the NEXT argument as its value when that argument does not
+look like an option: `--merge file.json` groups by the text `file.json` and reads standard input. -/
+def lexAll : List Str → List Tok
+  | [] => []
+  | [s] => [lex s]
+  | s :: v :: rest =>
+    match lex s with
+    | .opt o none =>
+      if o.kind = .optValue ∧ v.head? ≠ some '-' then .opt o (some v) :: lexAll rest
+      else .opt o none :: lexAll (v :: rest)
+    | t => t :: lexAll (v :: rest)
+
 /-- `Cli::try_parse_from` on the arguments after the program name -/
 def parseArgs (argv : List Str) : Option Parsed :=
-  (collect {} (argv.map lex)).map assemble
+  (collect {} (lexAll argv)).map assemble
 
 end Jawk.Args
